@@ -550,6 +550,9 @@ def check(run, db, tier):
     run.rule('C07.seq', 'sequence forms: each emitted mode denotes the polynomial of the requested order (C08.emit), and shared per-|m| tables are not overwritten (C08.shared)')
     run.group(c08.emit_rules, Proxy(run, {'C08.emit': 'C07.seq'}), db)
     run.group(c08.shared_rules, Proxy(run, {'C08.shared': 'C07.seq'}), db)
+    from . import seqtables
+    for fn_ in (seqtables.zernike_rules, seqtables.qbfs_seq_rules, seqtables.qcon_seq_rules, seqtables.q2d_seq_rules):
+        run.group(fn_, Proxy(run, {'C08.table2': 'C07.seq', 'C08.qseq': 'C07.seq'}), db)
     run.rule('C07.forbes', "Forbes' auxiliary coefficients (Qbfs f/g/h; Q2d A/B/C, gamma, F, G, f, g) equal the published formulas, case by case")
     run.group(forbes_rules, run, db)
     run.require_instances('C07.forbes', 23)
